@@ -278,3 +278,71 @@ def sh_main(ctx, out, rule="SH.main"):
                  "main returns `%s`, not anyhow::Result<()>: an Err would no longer become a non-zero exit status" % main.local_ty(0))
     out.inst(rule, found, 4, ["%s@bb%d" % kv for kv in sites.items()],
              note="validate ≺ parse_blocks ≺ detect_validators ≺ run (dominance) in main")
+
+
+# -------------------------------------------------------------------------------------------------
+# SH.visit — every block of every file is visited by a per-block validator
+# -------------------------------------------------------------------------------------------------
+TRUNCATING = re.compile(r"Iterator::(map_while|take_while|skip_while|take|skip|step_by|nth|find|find_map|position|last|scan|peekable|fuse)$")
+
+
+def sh_visit(ctx, out, name, attr=None, rule="SH.visit"):
+    """The loops over `context.blocks` and `blocks_with_context` iterate the collections directly
+    (no truncating adaptor) and a block without the rule's attribute continues with the next block."""
+    attr = attr or name
+    vb = ctx.validate_body(name)
+    if vb is None:
+        out.inst(rule + "." + name, 0, 2)
+        return
+    n = 0
+    for body in ctx.facts.with_descendants(vb):
+        cfg = cfg_of(body)
+        E = ctx.expr(body)
+        for h, blocks, kind in outer_block_loops(ctx, body):
+            # the driving next()
+            for x in blocks:
+                t = body.blocks[x]["term"]
+                if t and t["k"] == "call" and callee_matches(t, r"Iterator>?::next$") and cfg.innermost_loop(x) == h:
+                    e = E.operand(t["args"][0])
+                    txt = render(e, 3000)
+                    if not (("blocks_with_context" in txt) or re.search(r"\.blocks\b", txt)):
+                        continue
+                    bad = [c[1].split("::")[-1] for c in walk(e) if c[0] == "call" and TRUNCATING.search(c[1])]
+                    if bad:
+                        out.viol(rule, "%s|%s|truncated|%s" % (rule, name, kind), ctx.where(body, t["span"]),
+                                 "the %s loop of the `%s` validator iterates through %s: iteration can stop before every %s has been visited, so later blocks are never checked" % (kind, name, bad, "file" if kind == "files" else "block"))
+                    else:
+                        n += 1
+            if kind != "blocks":
+                continue
+            # a block without the attribute continues (does not leave the loop)
+            region = None
+            for x in blocks:
+                t = body.blocks[x]["term"]
+                if t and t["k"] == "call" and callee_matches(t, r"HashMap::<K, V, S, A>::(get|contains_key)$") and cfg.innermost_loop(x) == h:
+                    from rules import util as U
+                    k = U.const_val(ctx, body, t["args"][1]) if len(t["args"]) > 1 else None
+                    if k != attr:
+                        continue
+                    succ = cfg.succ[x]
+                    if not succ:
+                        continue
+                    sw = succ[0]
+                    tt = body.blocks[sw]["term"]
+                    if not tt or tt["k"] != "switch":
+                        continue
+                    arms = U.switch_arms(body, sw)
+                    is_get = callee_name(t).endswith("::get")
+                    missing = arms.get(0, arms["otherwise"]) if is_get or True else None
+                    # find the driving next() block of this loop for the iteration region
+                    nb = [y for y in blocks if body.blocks[y]["term"] and body.blocks[y]["term"]["k"] == "call" and callee_matches(body.blocks[y]["term"], r"Iterator>?::next$") and cfg.innermost_loop(y) == h]
+                    if not nb:
+                        continue
+                    reg = U.iter_region(body, nb[0]) | set(blocks)
+                    okc, r = U.continue_only(cfg, missing, reg, h)
+                    if okc:
+                        n += 1
+                    else:
+                        out.viol(rule, "%s|%s|missing-attr-not-continue" % (rule, name), ctx.where(body, t["span"]),
+                                 "a block without `%s` does not simply continue with the next block of the file: blocks after it would not be validated" % attr)
+    out.inst(rule + "." + name, n, 2, note="block/file loops iterate the collections directly; missing attribute -> continue")
